@@ -13,6 +13,51 @@ func init() {
 	verifRegister("verifC07Pairs", verifC07Pairs)
 	verifRegister("verifC07Mutant", verifC07Mutant)
 	verifRegister("verifC07Triples", verifC07Triples)
+	verifRegister("verifC07OptionalSets", verifC07OptionalSets)
+}
+
+// verifC07OptionalSets: two object types with the same three attributes whose optional flags are symbolic, possibly
+// wrapped in a list, map, set, tuple or object: equal exactly when the flags agree attribute by attribute.
+func verifC07OptionalSets() {
+	names := []string{"a", "b", "c"}
+	mk := func(tag string) (Type, *c07Desc) {
+		ats := map[string]Type{}
+		var opts []string
+		d := &c07Desc{kind: c07Object}
+		for _, n := range names {
+			ats[n] = String
+			opt := vBool(tag + "-" + n)
+			if opt {
+				opts = append(opts, n)
+			}
+			d.members = append(d.members, c07Member{name: n, d: &c07Desc{kind: c07String}, optional: opt})
+		}
+		return ObjectWithOptionalAttrs(ats, opts), d
+	}
+	t1, d1 := mk("x")
+	t2, d2 := mk("y")
+	switch vChoice("wrap", 6) {
+	case 1:
+		t1, t2 = List(t1), List(t2)
+		d1, d2 = &c07Desc{kind: c07List, elem: d1}, &c07Desc{kind: c07List, elem: d2}
+	case 2:
+		t1, t2 = Map(t1), Map(t2)
+		d1, d2 = &c07Desc{kind: c07Map, elem: d1}, &c07Desc{kind: c07Map, elem: d2}
+	case 3:
+		t1, t2 = Set(t1), Set(t2)
+		d1, d2 = &c07Desc{kind: c07Set, elem: d1}, &c07Desc{kind: c07Set, elem: d2}
+	case 4:
+		t1, t2 = Tuple([]Type{Bool, t1}), Tuple([]Type{Bool, t2})
+		d1 = &c07Desc{kind: c07Tuple, members: []c07Member{{d: &c07Desc{kind: c07Bool}}, {d: d1}}}
+		d2 = &c07Desc{kind: c07Tuple, members: []c07Member{{d: &c07Desc{kind: c07Bool}}, {d: d2}}}
+	case 5:
+		t1, t2 = Object(map[string]Type{"o": t1}), Object(map[string]Type{"o": t2})
+		d1 = &c07Desc{kind: c07Object, members: []c07Member{{name: "o", d: d1}}}
+		d2 = &c07Desc{kind: c07Object, members: []c07Member{{name: "o", d: d2}}}
+	}
+	c07Single(t1, d1)
+	c07Pair(t1, d1, t2, d2)
+	vReach("end")
 }
 
 const (
